@@ -5,6 +5,9 @@ package main
 import (
 	"flag"
 	"fmt"
+	"io"
+	"log"
+	"log/slog"
 	"os"
 	"strconv"
 
@@ -70,6 +73,9 @@ func main() {
 		}
 		seed = v
 	}
+	// the library logs through slog / log; keep worker output for the harness's own messages
+	slog.SetDefault(slog.New(slog.NewTextHandler(io.Discard, &slog.HandlerOptions{Level: slog.LevelError + 8})))
+	log.SetOutput(io.Discard)
 	if *worker >= 0 {
 		fw.RunWorker(spec, t, seed, *worker, *nworkers, *from, *replayIdx, *out, *logp)
 		return
